@@ -137,6 +137,35 @@ for cfg in configs:
         R.check("write-read cycle returns an equal structure", f"{flavour} {'stack' if models else 'array'}", desc, run)
 
 
+def numbering_case(first, last, charge_lo, charge_hi, flavour):
+    """one CA-only chain whose residue ids / atom ids / charges reach the edges of the 8/16-bit integer types
+    (compression narrows integer columns to the smallest type that holds them)"""
+    ids = np.arange(first, last + 1)
+    n = len(ids)
+    a = struc.AtomArray(n)
+    a.chain_id[:] = "A"
+    a.res_id[:] = ids
+    a.res_name[:] = "GLY"
+    a.atom_name[:] = "CA"
+    a.element[:] = "C"
+    a.coord = (np.arange(n * 3, dtype=np.float32).reshape(n, 3) * 0.5)
+    a.set_annotation("charge", np.linspace(charge_lo, charge_hi, n).round().astype(int))
+    a.set_annotation("atom_id", (np.arange(n) + last - n + 1 if first < 0 else np.arange(1, n + 1)).astype(int))
+    b, g = cycle(a, flavour, ("charge", "atom_id"))
+    return same(a, b, ("charge", "atom_id"))
+
+
+for first, last in [(1, 127), (1, 128), (-2, 127), (-2, 128), (-2, 129), (-128, 5), (-129, 5), (-3, 255), (-3, 256), (250, 260),
+                    (-2, 32767 // 64), (32700, 32770), (-5, 40), (65530, 65540)]:
+    for clo, chi in [(0, 0), (-1, 2), (-128, 127)]:
+        for flavour in ("cif", "bcif", "bcif-compressed"):
+            if not R.thorough and (clo, chi) != (-1, 2) and flavour != "bcif-compressed":
+                continue
+            R.check("write-read cycle returns an equal structure", f"{flavour} numbering at integer type edges",
+                    {"res_id": [first, last], "charge": [clo, chi], "flavour": flavour},
+                    lambda first=first, last=last, clo=clo, chi=chi, flavour=flavour: numbering_case(first, last, clo, chi, flavour))
+
+
 def snapshot_case(cfg, flavour):
     """set_structure() takes a snapshot: changing the caller's arrays in place afterwards must not change the file"""
     a = build(*cfg)
